@@ -49,7 +49,7 @@ func b01(b bool) string {
 // showParsed renders a parser result like run.ml's show_parsed / show_res.
 func showParsed(p webp.VerifRiffParsed) string {
 	if p.ErrClass != 0 {
-		return fmt.Sprintf("E%d", p.ErrClass)
+		return "E" // one token for "rejected": no property constrains which error is returned (the class is only counted)
 	}
 	var sb strings.Builder
 	fmt.Fprintf(&sb, "OK %d %d %d %d %d %s%s%s%s%s %d %d F%d", p.Format, p.Width, p.Height, p.CanvasW, p.CanvasH,
